@@ -1,6 +1,6 @@
 (* C08: the obligations of Properties.v, proved (statement for statement) *)
 From OlaBase Require Import Bytes.
-From C08 Require Import Gen Model Spec ListLemmas SacnTrack SacnProofs SacnThms ArtProofs ArtDistinct SeqInv TextSpec TextThm TextCheck WireProofs ShadowThm ArtText ArtStep.
+From C08 Require Import Gen Model Spec ListLemmas SacnTrack SacnProofs SacnThms ArtProofs ArtDistinct SeqInv TextSpec TextThm TextCheck WireProofs ShadowThm ArtText ArtStep NodeProofs.
 Local Open Scope N_scope.
 
 Lemma c08_consts_l :
@@ -189,4 +189,20 @@ Lemma c08_artnet_refines_text_l :
     (snd (atext_step c now G k) = None <-> snd (art_handle c now port k) = false) /\
     (forall out, snd (atext_step c now G k) = Some out -> ap_buf (fst (art_handle c now port k)) = out).
 Proof. exact artnet_refines. Qed.
+
+Lemma c08_artnet_node_l :
+  forall (h : list (N * nop)) (now : N) (k : apkt),
+    nguards 0 h -> nlast 0 h <= now -> k_addr k <> 0 ->
+    let nd := fst (nrun init_node init_ghosts h) in
+    let Gs := snd (nrun init_node init_ghosts h) in
+    fst (node_op now nd (NData k)) =
+      mkN (n_net nd) (map (fun p => fst (port_data (n_net nd) now p k)) (n_ports nd)) /\
+    snd (node_op now nd (NData k)) = map (fun p => snd (port_data (n_net nd) now p k)) (n_ports nd) /\
+    Forall2 (fun p G =>
+       let r := port_data (n_net nd) now p k in
+       let t := ntext_data (n_net nd) now p G k in
+       (snd t = None <-> snd r = false) /\
+       (forall out, snd t = Some out -> ap_buf (np_port (fst r)) = out) /\
+       (np_en p = false -> fst r = p)) (n_ports nd) Gs.
+Proof. exact node_refines. Qed.
 
